@@ -443,6 +443,33 @@ func (env *SpecEnv) evalIdent(name string) (TV, error) {
 func (env *SpecEnv) evalDollar(name string) (TV, error) {
 	ex := env.ex
 	li := env.loop
+	// ghost observations of call results
+	if env.calleeFn != nil {
+		if con := ex.P.contractOf(env.calleeFn); con != nil {
+			for _, v := range con.Observe {
+				if v == name {
+					key := "$obs:" + name
+					if tv, ok := env.vars[key]; ok {
+						return tv, nil
+					}
+					return TV{}, fmt.Errorf("observation $%s not bound at call site", name)
+				}
+			}
+		}
+	} else if ex.con != nil {
+		for callee, v := range ex.con.Observe {
+			if v == name {
+				var srt Sort = SBool
+				if f := ex.P.calleeByShortName(ex.fn, callee); f != nil && f.Signature.Results().Len() > 0 {
+					srt = ex.vc.sortOf(f.Signature.Results().At(0).Type())
+				}
+				if t, ok := env.st.ghost["obs:"+name]; ok {
+					return TV{t, nil}, nil
+				}
+				return TV{ex.vc.zeroOfSort(srt, nil), nil}, nil
+			}
+		}
+	}
 	if li == nil {
 		return TV{}, fmt.Errorf("$%s outside a loop clause", name)
 	}
@@ -816,6 +843,22 @@ func (env *SpecEnv) evalCall(e *ast.CallExpr) (TV, error) {
 			return TV{slLen(x.t), types.Typ[types.Int]}, nil
 		}
 		return TV{}, fmt.Errorf("len of %s", x.t.sort)
+	case "seqeq":
+		a, err := env.eval(e.Args[0])
+		if err != nil {
+			return TV{}, err
+		}
+		b, err := env.eval(e.Args[1])
+		if err != nil {
+			return TV{}, err
+		}
+		if !strings.HasPrefix(a.t.sort, "Slice_") || a.t.sort != b.t.sort {
+			return TV{}, fmt.Errorf("seqeq needs two slices of one type")
+		}
+		ex.nq++
+		qn := fmt.Sprintf("i!q%d", ex.nq)
+		body := Imp(And(Le(IntLit(0), T{qn, SInt}), Lt(T{qn, SInt}, slLen(a.t))), Eq(Select(slArr(a.t), T{qn, SInt}), Select(slArr(b.t), T{qn, SInt})))
+		return TV{And(Eq(slLen(a.t), slLen(b.t)), T{fmt.Sprintf("(forall ((%s Int)) %s)", qn, withPatterns(body.s, qn)), SBool}), boolT}, nil
 	case "arr":
 		x, err := env.eval(e.Args[0])
 		if err != nil {
